@@ -385,7 +385,9 @@ fn mutate_value(v: &Value, r: &mut Rng) -> Value {
             }
             Value::Vector(els) if !els.is_empty() => { let mut xs = els.to_vec(); let i = r.below(xs.len() as u64) as usize; xs[i] = mutate_value(&xs[i], r); Value::Vector(xs.into()) }
             Value::Symbol(s) => match r.below(3) { 0 => Value::string(&**s), 1 => Value::keyword(&**s), _ => Value::symbol(format!("{}x", s)) },
-            Value::Number(n) => match r.below(4) { 0 => Value::from(n.as_f64().unwrap_or(0.0) + 0.5), 1 => Value::from(u64::MAX), 2 => Value::from(i64::MIN), _ => Value::from(-1i64) },
+            Value::Number(n) => match r.below(6) { 0 => Value::from(n.as_f64().unwrap_or(0.0) + 0.5), 1 => Value::from(u64::MAX), 2 => Value::from(i64::MIN), 3 => Value::from(-1i64),
+                // finite doubles beyond the range of a narrower float, and below its smallest subnormal
+                4 => Value::from(*r.pick(&[1e39f64, -4e38, 3.4028235677973366e38, 3.4028236e38, f64::MAX, -1e300, 1e-46, 7e-46])), _ => Value::from(n.as_f64().unwrap_or(1.0) * 1e38) },
             Value::Null => Value::Nil,
             other => other.clone(),
         },
